@@ -32,8 +32,10 @@ structure PromptSt where
 /-- the prompt on display at each callback; `none` = not judged -/
 def promptsOnDisplay (own : Text) (hist : List Text) (cbs : List ScreenCb) : List (Option Text) :=
   let len := hist.length
-  let search (st : PromptSt) : PromptSt :=
-    match Spec.find true hist st.buf st.idx st.dir with
+  -- `st.idx` is the entry on display; a search starts at `start` (the entry itself for a typed character,
+  -- its neighbour for a repeated search key) and moves `idx` only when it hits
+  let search (st : PromptSt) (start : Nat) : PromptSt :=
+    match Spec.find true hist st.buf start st.dir with
     | some (i, _, _) => { st with idx := i, ok := true }
     | none => { st with ok := false }
   let rec go (cur : Option PromptSt) (dead : Bool) : List ScreenCb → List (Option Text)
@@ -60,14 +62,14 @@ def promptsOnDisplay (own : Text) (hist : List Text) (cbs : List ScreenCb) : Lis
               let next : Option PromptSt :=
                 if isPlainChar key then
                   match key.code with
-                  | .char c => some (search { st with buf := st.buf ++ [c] })
+                  | .char c => some (search { st with buf := st.buf ++ [c] } st.idx)
                   | _ => some st
                 else if key == ⟨.backspace, 0⟩ || key == ⟨.char 'H', 8⟩ then some { st with buf := st.buf.dropLast }
                 else if key == ⟨.char 'R', 8⟩ then
-                  if st.idx > 0 then some (search { st with idx := st.idx - 1, dir := .reverse })
+                  if st.idx > 0 then some (search { st with dir := .reverse } (st.idx - 1))
                   else some { st with dir := .reverse, ok := false }
                 else if key == ⟨.char 'S', 8⟩ then
-                  if st.idx + 1 < len then some (search { st with idx := st.idx + 1, dir := .forward })
+                  if st.idx + 1 < len then some (search { st with dir := .forward } (st.idx + 1))
                   else some { st with dir := .forward, ok := false }
                 else none   -- abort or any other command: the search ends, the own prompt is restored
               some (searchPrompt st.buf st.ok) :: go next false rest
